@@ -15,7 +15,7 @@ def isData : Msg → Bool
 theorem u32_toNat_of_lt (n : Nat) (h : n < 4294967296) : (UInt32.ofNat n).toNat = n := by
   simp [UInt32.toNat_ofNat']; omega
 
-theorem unpackBody_body (dotu : Bool) (m : Msg) (r : Bytes) (h : Spec.Rep dotu m)
+theorem unpackBody_body (dotu : Bool) (m : Msg) (r : Bytes) (h : Spec.RepW dotu m)
     (hr : isData m = true → r = []) :
     unpackBody dotu m.code (Spec.body dotu m ++ r) = .ok (norm dotu m, r) := by
   obtain ⟨hsz, h⟩ := h
@@ -112,7 +112,7 @@ theorem encode_length (dotu : Bool) (tag : UInt16) (m : Msg) :
     (Spec.encode dotu tag m).length = 7 + (Spec.body dotu m).length := by
   simp [Spec.encode]; omega
 
-theorem unpack_encode' (dotu : Bool) (tag : UInt16) (m : Msg) (rest : Bytes) (h : Spec.Rep dotu m) :
+theorem unpack_encode' (dotu : Bool) (tag : UInt16) (m : Msg) (rest : Bytes) (h : Spec.RepW dotu m) :
     unpack dotu (Spec.encode dotu tag m ++ rest) =
       .ok (tag, norm dotu m, (Spec.encode dotu tag m).length) := by
   have hsz : 7 + (Spec.body dotu m).length < 4294967296 := h.1
@@ -134,7 +134,7 @@ theorem unpack_encode' (dotu : Bool) (tag : UInt16) (m : Msg) (rest : Bytes) (h 
   rw [if_neg hnb]
   have hn : need (7 + (Spec.body dotu m).length - 7) (Spec.body dotu m ++ rest) = .ok (Spec.body dotu m, rest) :=
     need_append _ _ _ (by omega)
-  simp only [hn, Res.ok_bind, if_neg (code_range m), hv]
+  simp only [hn, Res.ok_bind, unpackRest, if_neg (code_range m), hv]
   have : ¬ (Spec.body dotu m).length < v := by omega
   simp [this, hb]
   omega
